@@ -193,6 +193,7 @@ def run(prog, rep, tier, cfg):
     X.value_from('K10', 'power:exec-miner-code', CM, X.agg_field_atoms(CM, 'ExecParams', 'code_cid', narrow=False), ['C:Runtime::get_code_cid_for_type', 'E:Type::Miner'], 'power execs the miner code')
     # ---- error discipline: no Result produced in these crates is silently discarded
     X.no_dropped_results('K14', 'results-not-discarded', ['fil_actor_init', 'fil_actor_eam', 'fil_actor_evm'], 'no Result of a call is discarded')
+    X.tolerated_failures('K15', 'tolerated-failures', ['fil_actor_init', 'fil_actor_eam', 'fil_actor_evm'], 'tolerated failures are the reviewed ones')
 
 
 
